@@ -469,7 +469,7 @@ fn precise_prog(rng: &mut Rng, i: usize) -> Prog {
 
 pub fn run(r: &mut Report) {
     let mut rng = Rng::new(r.seed ^ 0xC15);
-    let per_family = if r.quick() { 12 } else { 100 };
+    let per_family = if r.quick() { 30 } else { 100 };
     let iters = if r.quick() { 80 } else { 600 };
     let mut items: Vec<(String, Prog, u64, bool)> = vec![];
     for (name, p) in gen::corpus() {
